@@ -85,6 +85,8 @@ var (
 	cOddRefused    = simrt.RegisterCounter("probe_unusual_input_refused_not_judged")
 	cBusy          = simrt.RegisterCounter("op_busy_server_many_connections_and_devices")
 	cBare          = simrt.RegisterCounter("configuration_without_kek_label_and_home_netid_callbacks")
+	cDecoyCalled   = simrt.RegisterCounter("callback_of_another_handler_of_the_process_called")
+	cBareRefused   = simrt.RegisterCounter("configuration_without_optional_callbacks_refused_by_newhandler")
 	cDecoy         = simrt.RegisterCounter("configuration_other_handlers_exist_in_the_process")
 	cHexPrefix     = simrt.RegisterCounter("probe_hex_members_with_0x_prefix")
 	fClientGone    = simrt.RegisterCounter("fault_client_disconnected_while_storage_works")
@@ -847,7 +849,10 @@ func build(sw *sim.World) {
 	decoy := func(k int) {
 		kek := r.Bytes(16)
 		called := func(what string) {
-			simrt.Report("j4.foreign-configuration", fmt.Sprintf("a request through one handler called the %s callback another handler of the process was configured with", what))
+			// (counted: what such a call does to an ANSWER of the handler under
+			// test is judged by the statement's own oracles)
+			_ = what
+			simrt.Count(cDecoyCalled)
 		}
 		_, err := joinserver.NewHandler(joinserver.HandlerConfig{
 			GetDeviceKeysByDevEUIFunc: func(lorawan.EUI64) (joinserver.DeviceKeys, error) {
@@ -878,6 +883,15 @@ func build(sw *sim.World) {
 		cfg.GetHomeNetIDByDevEUIFunc = w.getHomeNetID
 	}
 	h, err := joinserver.NewHandler(cfg)
+	if err != nil && w.bare {
+		// a join-server that insists on all four callbacks: the same
+		// configuration, spelled with callbacks that have nothing to offer
+		simrt.Count(cBareRefused)
+		cfg.GetKEKByLabelFunc = w.getKEK
+		cfg.GetASKEKLabelByDevEUIFunc = w.getASLabel
+		cfg.GetHomeNetIDByDevEUIFunc = w.getHomeNetID
+		h, err = joinserver.NewHandler(cfg)
+	}
 	if err != nil {
 		panic(err)
 	}
@@ -915,6 +929,7 @@ func sortedKeys(m map[string][]byte) []string {
 type request struct {
 	macVersion  string // what the NS believes the device speaks; independent of OptNeg
 	sender      string // SenderID as this network server spells its NetID
+	hexPrefix   bool   // hexadecimal members of the body carry the 0x prefix
 	kind        int    // 0 join, 1..3 rejoin type 0..2, 4 homeNS
 	gen         int    // key generation the device used to build the request
 	dev         spec.Device
@@ -1300,6 +1315,11 @@ func doRequest(w *world, r *sim.Rand, rq *request, c *reqCtx, faults, live bool)
 		if rq.cfList != nil && r.Intn(2) == 0 {
 			body = bytes.Replace(body, []byte(`"CFList":"`), []byte(`"CFList":"0x`), 1)
 		}
+		// (which spellings of a hexadecimal member the HTTP layer takes is not
+		// in the statement: a stricter join-server may refuse this body; a
+		// Success answer is judged in full)
+		rq.odd = true
+		rq.hexPrefix = true
 		simrt.Count(cHexPrefix)
 	}
 	if faults && rq.rawKind == 0 && rq.cfList == nil && rq.kind != 4 && r.Intn(3) == 0 {
@@ -1356,6 +1376,17 @@ func doRequest(w *world, r *sim.Rand, rq *request, c *reqCtx, faults, live bool)
 			simrt.Report("j3.malformed-accepted", fmt.Sprintf("malformed request (kind %d, body error at %d) answered Success (HTTP %d): %s", rq.rawKind, c.bodyErrAt, code, firstN(out, 300)))
 		}
 		return
+	}
+	if rq.hexPrefix {
+		// a join-server that reads hexadecimal members strictly refuses the body
+		// before it knows what the request is about: however it says so
+		var res struct {
+			Result backend.Result `json:"Result"`
+		}
+		if json.Unmarshal(out, &res) != nil || res.Result.ResultCode != backend.Success {
+			simrt.Count(cOddRefused)
+			return
+		}
 	}
 	if !json.Valid(out) && (c.cancelled || c.slow > 0) {
 		// nobody is there to read the answer any more, or the join-server gave
